@@ -315,10 +315,37 @@ func (g *Gen) computeModSets() {
 	for _, name := range g.fnames {
 		g.modsets[g.funcs[name]] = newModSet()
 	}
+	// a function with a declared frame (verified against it, or trusted) contributes that frame to its callers
+	declared := map[*ssa.Function]bool{}
+	for _, name := range g.fnames {
+		fn := g.funcs[name]
+		if k := g.contractFor(name); k != nil && k.HasMods {
+			ms := newModSet()
+			for _, m := range k.Modifies {
+				for _, key := range g.expandModKey(m) {
+					if key == "*" {
+						ms.all = true
+					} else {
+						ms.comps[key] = true
+					}
+				}
+			}
+			for comp := range k.ModAt {
+				for _, key := range g.expandModKey(comp) {
+					ms.comps[key] = true
+				}
+			}
+			g.modsets[fn] = ms
+			declared[fn] = true
+		}
+	}
 	for changed := true; changed; {
 		changed = false
 		for _, name := range g.fnames {
 			fn := g.funcs[name]
+			if declared[fn] {
+				continue
+			}
 			ms := g.modsets[fn]
 			for _, b := range fn.Blocks {
 				for _, ins := range b.Instrs {
